@@ -47,6 +47,7 @@ def cases(rng, tier):
         nparts = rng.choice([0, 1, 2, 2, 3, 4])
         ops = []
         handles = 0
+        use_set = rng.random() < 0.4
         for _ in range(rng.randint(1, 30)):
             r = rng.random()
             if r < 0.2 or handles == 0 and r < 0.6:
@@ -56,8 +57,10 @@ def cases(rng, tier):
                 ops.append(["next", rng.randrange(handles)])
             elif r < 0.85:
                 ops.append(["len"])
-            else:
+            elif r < 0.93 or not use_set:
                 ops.append(["get", rng.randint(-nparts - 2, nparts + 1)])
+            else:
+                ops.append(["set", rng.randint(-nparts - 1, nparts), 100 + len(ops)])  # c[i] = a new part
         yield {"k": "proto", "kind": rng.choice(["score", "performance"]), "n": nparts, "ops": ops}
     for nparts in (2, 3):
         yield {"k": "nested", "kind": "score", "n": nparts}
@@ -87,6 +90,9 @@ def evaluate(d):
         idx = {id(p): i for i, p in enumerate(parts)}
         handles, outs, ref = [], [], []
         cursors = []
+        keep = []
+        cur = list(range(d["n"]))  # reference: the ids of the parts the container holds now
+        has_set = any(op[0] == "set" for op in d["ops"])
         for op in d["ops"]:
             try:
                 if op[0] == "iter":
@@ -94,9 +100,24 @@ def evaluate(d):
                     cursors.append(0)
                     o = "h%d" % (len(handles) - 1)
                     r = o
+                elif op[0] == "set":
+                    i, newid = op[1], op[2]
+                    if -d["n"] <= i < d["n"]:
+                        cur[i % d["n"]] = newid
+                        r = "len%d" % d["n"]
+                    else:
+                        r = "IndexError"
+                    _, newparts = make_container(d["kind"], 1)
+                    idx[id(newparts[0])] = newid
+                    keep.append(newparts[0])
+                    try:
+                        c[i] = newparts[0]
+                        o = "len%d" % len(c)
+                    except IndexError:
+                        o = "IndexError"
                 elif op[0] == "next":
                     h = op[1]
-                    r = "p%d" % cursors[h] if cursors[h] < d["n"] else "stop"
+                    r = "p%d" % cur[cursors[h]] if cursors[h] < d["n"] else "stop"
                     if cursors[h] < d["n"]:
                         cursors[h] += 1
                     try:
@@ -108,7 +129,7 @@ def evaluate(d):
                     r = "len%d" % d["n"]
                 else:
                     i = op[1]
-                    r = "p%d" % (i % d["n"]) if -d["n"] <= i < d["n"] else "IndexError"
+                    r = "p%d" % cur[i % d["n"]] if -d["n"] <= i < d["n"] else "IndexError"
                     try:
                         o = "p%d" % idx[id(c[i])]
                     except IndexError:
@@ -117,7 +138,7 @@ def evaluate(d):
                 o = "err:%s" % type(e).__name__
             outs.append(o)
             ref.append(r)
-        ev.requests.append("run %d %s" % (d["n"], W.lst(lambda op: " ".join(str(x) for x in op), d["ops"])))
+        ev.requests.append("%s %d %s" % ("run2" if has_set else "run", d["n"], W.lst(lambda op: " ".join(str(x) for x in op), d["ops"])))
         ev.impl.append("[" + ",".join(outs) + "]")
         if outs != ref:
             j = [i for i, (a, b) in enumerate(zip(outs, ref)) if a != b][0]
@@ -341,6 +362,30 @@ def frame_case(d, ev):
                 ev.oracle.append("%s is not repeatable: second call on the same %s gives a different result" % (nm, d["what"]))
         else:
             results[nm] = (epoch, r)
+    # ---- array arguments: a view of a note array must copy (the argument array is left alone and not aliased)
+    if d["what"] != "performance":
+        import partitura.score as S
+        import partitura.utils.music as M
+
+        part0 = obj if isinstance(obj, S.Part) else (obj.parts[0] if len(obj.parts) else None)
+        if part0 is not None and len(part0.notes_tied) > 0:
+            na = part0.note_array()
+            lo = float(na["onset_beat"].min())
+            hi = float((na["onset_beat"] + na["duration_beat"]).max())
+            for (a, b) in ((lo - 1.0, hi - 0.25), (lo - 1.0, hi + 1.0), (lo + 0.25, hi - 0.25)):
+                before = na.copy()
+                try:
+                    sl = M.slice_notearray_by_time(na, a, b, clip_onset_duration=True)
+                except Exception as e:
+                    raised["slice_notearray_by_time"] = type(e).__name__
+                    continue
+                if before.tobytes() != na.tobytes():
+                    ev.oracle.append("slice_notearray_by_time modified its argument array (window %s..%s, %d notes)" % (a, b, len(na)))
+                    break
+                if isinstance(sl, np.ndarray) and (sl is na or np.shares_memory(sl, na)):
+                    ev.oracle.append("slice_notearray_by_time returned a view of its argument (window %s..%s covers %d of %d notes): "
+                                     "writing to the result would modify the argument" % (a, b, len(sl), len(na)))
+                    break
     ev.info = {"raised": raised, "order": order[: len(names)]}
 
 
